@@ -23,7 +23,7 @@ import (
 
 func filesPer(tier string) int {
 	if tier == "thorough" {
-		return 1600
+		return 1280
 	}
 	return 128
 }
@@ -38,11 +38,11 @@ func chunksPer(tier string) int {
 func Spec() *run.Spec {
 	return &run.Spec{
 		ID: "C14", Level: "fault_enumeration", Exhaustive: true,
-		Rule: "Per run 128 (quick) / 1600 (thorough) valid files are generated, 8 / 100 of each of 16 kinds: PLY ascii / binary LE / binary BE " +
+		Rule: "Per run 128 (quick) / 1280 (thorough) valid files are generated, 8 / 80 of each of 16 kinds: PLY ascii / binary LE / binary BE " +
 			"× {cloud, mesh, mesh with per-face texcoords} written by polyform, PLY of the three encodings written by an independent writer " +
 			"(CRLF, comments, double/uchar/int properties, quads, uint/int list counts, texcoord lists, `element face 0`, whitespace runs), " +
 			"the splat-PLY export, binary STL (polyform / independent writer), SPZ v1 and v2 with SH degree 0–3 from the reference encoder at five gzip levels, " +
-			"PTS with 3/4/7 columns (0, 1, n points) and .splat (reference encoder / polyform writer); in thorough 192 of the files are large (8–64 KiB). " +
+			"PTS with 3/4/7 columns (0, 1, n points) and .splat (reference encoder / polyform writer); in thorough 160 of the files are large (8–64 KiB). " +
 			"For each file EVERY cut position 0…len−1 of binary data and of textual headers, and every position not strictly inside a token of an ASCII body, " +
 			"is decoded through a plain io.Reader that hands over all it has; every cut of a file of at most 4096 bytes is decoded a second time with the prefix delivered in short reads (1–64 bytes). One case = one (file, contiguous 1/4 or 1/16 of its cut set) chunk; exhaustive over the stated cut set. " +
 			"A case is non-trivial when the complete file decoded to the expected element count, holds at least one record and at least one prefix was decoded; " +
